@@ -331,6 +331,43 @@ pub fn steered_server_keys(report: &Report, tier: Tier, seed: u64) {
             }
         }
     }
+    // B = 0: the documented outcome is a panic of into_proof; a library that draws another private key instead must use
+    // THAT key for everything that follows (B, S, K, M2 all belong to one b)
+    for (bi, b) in bs.iter().enumerate() {
+        let bb = U::from_le_bytes(b);
+        let gb = U::from_u64(7).modpow(&bb, &n);
+        let v = U::submod(&U::zero(), &gb, &n).mulmod(&inv3, &n);
+        if !srp::server_public(&v, &bb, 7, &n).is_zero() || !taken_as_is(Pinned::ServerKey, b) {
+            continue;
+        }
+        let b_again = refmodel::ctr_array::<32>(seed, &format!("steer-b-again-{bi}")).map(|x| x & 0x7F);
+        let mut script = b.to_vec();
+        script.extend_from_slice(&b_again);
+        let v_le = v.to_le_padded::<32>();
+        let ver = SrpVerifier::from_database_values(ns("A"), v_le, [0u8; 32]);
+        let (r, _used, log) = with_script(&script, move || {
+            let p = ver.into_proof();
+            (*p.server_public_key(), p)
+        });
+        cases += 1;
+        if let Ok((bpub, proof)) = r {
+            let a_probe = srp::client_public(&U::from_u64(91), 7, &n).to_le_padded::<32>();
+            let want_b2 = srp::server_public(&v, &U::from_le_bytes(&b_again), 7, &n);
+            let mut ok = false;
+            if log.len() >= 2 && log[1].bytes == b_again && !want_b2.is_zero() && bpub == want_b2.to_le_padded::<32>() {
+                let u = U::from_le_bytes(&srp::u_bytes(&a_probe, &bpub));
+                let s = srp::server_s(&U::from_le_bytes(&a_probe), &v, &u, &U::from_le_bytes(&b_again), &n).to_le_padded::<32>();
+                if let (Some(k), Ok(ak)) = (srp::interleave(&s), PublicKey::from_le_bytes(a_probe)) {
+                    let m1 = srp::m1(b"A", &[0u8; 32], &a_probe, &bpub, &k, 7, &srp::n_builtin_le());
+                    let want_m2 = srp::m2(&a_probe, &m1, &k);
+                    ok = matches!(catch(move || proof.into_server(ak, m1).map(|(srv, m2)| (*srv.session_key(), m2))), Ok(Ok((kk, m2))) if kk == k && m2 == want_m2);
+                }
+            }
+            if !ok {
+                viol(report, "steered-B|zero-key-not-refused-nor-consistently-redrawn", json!({"verifier_le": hex(&v_le), "b_le": hex(b), "next_rng_answer": hex(&b_again)}), format!("3v + g^b is congruent 0 mod N: into_proof returned B = {} and what follows is not the exchange of the re-drawn key (B would be {})", hex(&bpub), want_b2.to_hex_be()));
+            }
+        }
+    }
     report.count("steered_server_key_cases", cases);
     report.set("steered_server_key_quotients_seen", json!(quotients));
     report.require("steered_server_key_cases");
